@@ -2,6 +2,8 @@ import MidnightZK.Model.Common
 import MidnightZK.Model.C19.Rx
 import MidnightZK.Model.C19.Tree
 import MidnightZK.Model.C19.Dfa
+import MidnightZK.Model.C19.Spec
+import MidnightZK.Model.C19.Serial
 /-! Parsers and printers of the C19 line protocol (trees, automata, words, verdicts). -/
 namespace MidnightZK.C19.Driver
 open MidnightZK MidnightZK.C19
@@ -94,5 +96,138 @@ def fmtVerdict : Verdict → String
   | .equiv _ _ => "equiv"
   | .diff w => s!"diff {fmtWord w}"
   | .unknown why => s!"unknown {why}"
+
+/-- `-` or an even-length lowercase hex string: the bytes. -/
+def parseHexBytes (s : String) : Option (List Nat) :=
+  if s = "-" then some [] else
+  let cs := s.toList
+  let rec go : List Char → Option (List Nat)
+    | [] => some []
+    | a :: b :: rest => do
+      let v ← parseHex? (String.ofList [a, b])
+      let vs ← go rest
+      pure (v :: vs)
+    | _ => none
+  go cs
+
+def parsePair (t : String) : Option (Nat × Nat) :=
+  match t.splitOn ":" with
+  | [a, b] => do pure (← a.toNat?, ← b.toNat?)
+  | _ => none
+
+def parsePairs : Nat → List String → Option (List (Nat × Nat) × List String) :=
+  parseMany (fun ts => match ts with
+    | t :: ts => (parsePair t).map (fun p => (p, ts))
+    | [] => none)
+
+/-- Prefix syntax of a specification (harness `spec_text`). -/
+partial def parseSpec : List String → Option (RxSpec × List String)
+  | "byte_from" :: h :: ts => do pure (.byteFrom (← parseHexBytes h), ts)
+  | "byte_not_from" :: h :: ts => do pure (.byteNotFrom (← parseHexBytes h), ts)
+  | "any_byte" :: ts => some (.anyByte, ts)
+  | "word" :: h :: ts => do pure (.word (← parseHexBytes h), ts)
+  | "digit" :: ts => some (.digit, ts)
+  | "lowercase_letter" :: ts => some (.lower, ts)
+  | "uppercase_letter" :: ts => some (.upper, ts)
+  | "letter" :: ts => some (.letter, ts)
+  | "alphanumeric" :: ts => some (.alnum, ts)
+  | "one_blank" :: ts => some (.oneBlank, ts)
+  | "blanks_strict" :: ts => some (.blanksStrict, ts)
+  | "blanks" :: ts => some (.blanks, ts)
+  | "any" :: ts => some (.any, ts)
+  | "epsilon" :: ts => some (.epsilon, ts)
+  | "utf8_cps" :: ts => some (.utf8Cps, ts)
+  | "utf8" :: ts => some (.utf8, ts)
+  | "json_string" :: ts => some (.jsonString, ts)
+  | "neg" :: ts => do let (a, ts) ← parseSpec ts; pure (.neg a, ts)
+  | "union" :: n :: ts => do let (l, ts) ← parseMany parseSpec (← n.toNat?) ts; pure (.union l, ts)
+  | "inter" :: n :: ts => do let (l, ts) ← parseMany parseSpec (← n.toNat?) ts; pure (.inter l, ts)
+  | "cat" :: n :: ts => do let (l, ts) ← parseMany parseSpec (← n.toNat?) ts; pure (.cat l, ts)
+  | "spaced_cat" :: n :: ts => do
+    let (l, ts) ← parseMany parseSpec (← n.toNat?) ts; pure (.spacedCat l, ts)
+  | "list" :: ts => do let (a, ts) ← parseSpec ts; pure (.list a, ts)
+  | "spaced_list" :: ts => do let (a, ts) ← parseSpec ts; pure (.spacedList a, ts)
+  | "non_empty_list" :: ts => do let (a, ts) ← parseSpec ts; pure (.nonEmptyList a, ts)
+  | "spaced_non_empty_list" :: ts => do
+    let (a, ts) ← parseSpec ts; pure (.spacedNonEmptyList a, ts)
+  | "terminated" :: ts => do
+    let (a, ts) ← parseSpec ts; let (b, ts) ← parseSpec ts; pure (.terminated a b, ts)
+  | "spaced_terminated" :: ts => do
+    let (a, ts) ← parseSpec ts; let (b, ts) ← parseSpec ts; pure (.spacedTerminated a b, ts)
+  | "or" :: ts => do let (a, ts) ← parseSpec ts; let (b, ts) ← parseSpec ts; pure (.or a b, ts)
+  | "and" :: ts => do let (a, ts) ← parseSpec ts; let (b, ts) ← parseSpec ts; pure (.and a b, ts)
+  | "minus" :: ts => do
+    let (a, ts) ← parseSpec ts; let (b, ts) ← parseSpec ts; pure (.minus a b, ts)
+  | "optional" :: ts => do let (a, ts) ← parseSpec ts; pure (.optional a, ts)
+  | "delimited" :: ts => do
+    let (a, ts) ← parseSpec ts; let (o, ts) ← parseSpec ts; let (c, ts) ← parseSpec ts
+    pure (.delimited a o c, ts)
+  | "spaced_delimited" :: ts => do
+    let (a, ts) ← parseSpec ts; let (o, ts) ← parseSpec ts; let (c, ts) ← parseSpec ts
+    pure (.spacedDelimited a o c, ts)
+  | "separated_non_empty_list" :: ts => do
+    let (a, ts) ← parseSpec ts; let (b, ts) ← parseSpec ts; pure (.sepNonEmptyList a b, ts)
+  | "spaced_separated_non_empty_list" :: ts => do
+    let (a, ts) ← parseSpec ts; let (b, ts) ← parseSpec ts; pure (.spacedSepNonEmptyList a b, ts)
+  | "separated_list" :: ts => do
+    let (a, ts) ← parseSpec ts; let (b, ts) ← parseSpec ts; pure (.sepList a b, ts)
+  | "spaced_separated_list" :: ts => do
+    let (a, ts) ← parseSpec ts; let (b, ts) ← parseSpec ts; pure (.spacedSepList a b, ts)
+  | "separated_cat" :: n :: ts => do
+    let (l, ts) ← parseMany parseSpec (← n.toNat?) ts
+    let (s, ts) ← parseSpec ts
+    pure (.sepCat l s, ts)
+  | "spaced_separated_cat" :: n :: ts => do
+    let (l, ts) ← parseMany parseSpec (← n.toNat?) ts
+    let (s, ts) ← parseSpec ts
+    pure (.spacedSepCat l s, ts)
+  | "repeat" :: n :: ts => do let (a, ts) ← parseSpec ts; pure (.repeatN (← n.toNat?) a, ts)
+  | "spaced_repeat" :: n :: ts => do
+    let (a, ts) ← parseSpec ts; pure (.spacedRepeat (← n.toNat?) a, ts)
+  | "repeat_at_most" :: n :: ts => do
+    let (a, ts) ← parseSpec ts; pure (.repeatAtMost (← n.toNat?) a, ts)
+  | "spaced_repeat_at_most" :: n :: ts => do
+    let (a, ts) ← parseSpec ts; pure (.spacedRepeatAtMost (← n.toNat?) a, ts)
+  | "separated_repeat" :: n :: ts => do
+    let (a, ts) ← parseSpec ts; let (s, ts) ← parseSpec ts; pure (.sepRepeat (← n.toNat?) a s, ts)
+  | "spaced_separated_repeat" :: n :: ts => do
+    let (a, ts) ← parseSpec ts; let (s, ts) ← parseSpec ts
+    pure (.spacedSepRepeat (← n.toNat?) a s, ts)
+  | "separated_repeat_at_most" :: n :: ts => do
+    let (a, ts) ← parseSpec ts; let (s, ts) ← parseSpec ts
+    pure (.sepRepeatAtMost (← n.toNat?) a s, ts)
+  | "spaced_separated_repeat_at_most" :: n :: ts => do
+    let (a, ts) ← parseSpec ts; let (s, ts) ← parseSpec ts
+    pure (.spacedSepRepeatAtMost (← n.toNat?) a s, ts)
+  | "mark" :: k :: ts => do
+    let (tbl, ts) ← parsePairs (← k.toNat?) ts
+    let (a, ts) ← parseSpec ts
+    pure (.mark tbl a, ts)
+  | "mark_bytes" :: h :: m :: ts => do
+    let (a, ts) ← parseSpec ts
+    pure (.markBytes (← parseHexBytes h) (← m.toNat?) a, ts)
+  | "replace_markers" :: k :: ts => do
+    let (tbl, ts) ← parsePairs (← k.toNat?) ts
+    let (a, ts) ← parseSpec ts
+    pure (.replaceMarkers tbl a, ts)
+  | _ => none
+
+/-- Text form of an automaton (harness `dfa_text`): rows grouped by (source, target, marker). -/
+def dfaText (A : Dfa) : String :=
+  let finals := (List.range A.nStates).filter (fun s => A.isFinal s)
+  let rows : List (Nat × Nat × Nat × Nat) := (List.range A.nStates).flatMap (fun s =>
+    let es := (List.range 256).filterMap (fun b => (A.lookup s b).map (fun tm => (tm.1, tm.2, b)))
+    let keys := (es.map (fun e => (e.1, e.2.1))).foldl
+      (fun acc k => if acc.contains k then acc else acc ++ [k]) []
+    let keys := keys.mergeSort (fun a b => a.1 < b.1 || (a.1 == b.1 && a.2 ≤ b.2))
+    keys.map (fun k => (s, k.1, k.2,
+      (es.filter (fun e => e.1 == k.1 && e.2.1 == k.2)).foldl (fun acc e => acc ||| (1 <<< e.2.2)) 0)))
+  " ".intercalate (["A", toString A.nStates, toString A.init, "F", toString finals.length]
+    ++ finals.map toString ++ ["R", toString rows.length]
+    ++ rows.flatMap (fun r => [toString r.1, toString r.2.1, toString r.2.2.1, RTree.hexStr r.2.2.2]))
+
+def hexOfBytes (l : List Nat) : String :=
+  if l.isEmpty then "-" else
+  String.ofList (l.flatMap (fun b => [RTree.hexDigitC (b / 16), RTree.hexDigitC (b % 16)]))
 
 end MidnightZK.C19.Driver
